@@ -51,6 +51,10 @@ def asPair : V → Option (V × String × V)
 
 def isPair (x : V) : Bool := (asPair x).isSome
 
+def isNum : V → Bool
+  | .num _ => true
+  | _ => false
+
 /-! ## generic keyed sequences: slots `List (Option α)` + offset (String, Bytes, Array) -/
 namespace KSeq
 variable {α β : Type}
@@ -283,14 +287,15 @@ def safeCall (S : V) (k : Arg) (d : V) : Bool × Res V :=
   | .error .noReturn => (true, .ok d)
   | r => (false, r)
 
-/-- the rule `>>` imposes on strings and byte arrays: a char stays a char, a byte a byte -/
+/-- the rule `>>` imposes on strings and byte arrays: a char stays a char, a byte a byte
+(under a key that is not a number — no string or byte array — it at least stays a number) -/
 def valueOk (name : String) (k v : V) : Bool :=
   match k with
   | .num _ =>
     if name = "@char" then (match v with | .num n => decide (0 ≤ n ∧ n < 2147483648) | _ => false)
     else if name = "@byte" then (match v with | .num n => decide (0 ≤ n ∧ n < 256) | _ => false)
     else true
-  | _ => true
+  | _ => if name = "@char" ∨ name = "@byte" then isNum v else true
 
 /-- transform one member: the key and the attribute name stay, the value becomes `f k v` -/
 def mapMember (f : F) (x : V) : Res V :=
@@ -506,7 +511,10 @@ def relNames (ps : List (String × V × V)) : List String := dedup (ps.map (·.1
 
 def relBuckets (ps : List (String × V × V)) : List Bucket :=
   (relNames ps).map (fun n =>
-    .rel true n (dedup ((ps.filter (fun p => p.1 = n)).map (fun p => (p.2.1, p.2.2)))))
+    -- relationBuilder: the heading in sorted name order, so `@` is the first column unless the
+    -- other name sorts before it (`$a`)
+    .rel (decide ("@" < n)) n
+      (dedup ((ps.filter (fun p => p.1 = n)).map (fun p => if "@" < n then (p.2.1, p.2.2) else (p.2.2, p.2.1)))))
 
 /-- SetBuilder.Add: one builder per bucket key (the order of Go's map iteration is immaterial) -/
 def buckets (xs : List V) : List Bucket :=
@@ -525,6 +533,16 @@ def ofBuckets : List Bucket → Coll
   | bs => .union bs
 
 def build (xs : List V) : Coll := ofBuckets (buckets xs)
+
+/-- Relation.Join producing a two-attribute heading with `@`: the heading is left output ++ right
+output, so `@` is the FIRST physical column iff it came from the left operand; a sugared second
+attribute (@item, @byte, @value, @char) is rebuilt through the set builder instead.
+`rows` = (key, value) pairs -/
+def joinPairs (atLeft : Bool) (name : String) (rows : List (V × V)) : Coll :=
+  if rows.isEmpty then .empty
+  else if name = "@item" ∨ name = "@byte" ∨ name = "@value" ∨ name = "@char" then
+    build (rows.map (fun r => V.pair name r.1 r.2))
+  else .one (.rel atLeft name (dedup (rows.map (fun r => if atLeft then r else (r.2, r.1)))))
 
 /-! ### `>>` and `>>>` (SeqArrowExpr.Eval) -/
 
@@ -588,7 +606,8 @@ def dictEntries : List (V × List V) → List (V × V)
   | [] => []
   | (k, vs) :: r => vs.map (fun v => (k, v)) ++ dictEntries r
 
-/-- the `case Set` loop (as repaired: a member must be exactly `(@: _, x: _)`) -/
+/-- the `case Set` loop (as repaired: a member must be exactly `(@: _, x: _)`; a char or byte
+must stay a number) -/
 def setLoop (f : F) : List V → Res (List V)
   | [] => .ok []
   | x :: r =>
@@ -598,9 +617,12 @@ def setLoop (f : F) : List V → Res (List V)
       match f k v with
       | .error e => .error e
       | .ok w =>
-        match setLoop f r with
-        | .ok out => .ok (V.pair name k w :: out)
-        | .error e => .error e
+        -- "NewTuple would panic on a char or byte that is not a number"
+        if (name = "@char" ∨ name = "@byte") ∧ isNum w = false then .error .other
+        else
+          match setLoop f r with
+          | .ok out => .ok (V.pair name k w :: out)
+          | .error e => .error e
 
 def seqArrow (f : F) : Coll → Res Coll
   | .one (.str off rs) =>
